@@ -142,6 +142,13 @@ def step (σ : St) (op obs : List String) : St × List Msg :=
     | _, _ => (σ, [.diff "match" "no-tree" idsTok])
   | ["match", _], "error" :: _ => (σ, [.diff "match" "ok" "error"])
   | ["begin"], _ => (σ, [])
+  | ["amtool", lsTok], [got, want] =>
+    -- the real `amtool config routes test` binary against Route.Match on the same tree (both are the implementation:
+    -- C07's "the receivers shown by the API, amtool and the dispatcher's actual groups agree")
+    if got.startsWith "E" then (σ, [.diff "amtool.run" "receivers" got]) else
+    (σ, (if got = want then [] else [Msg.propfail "three_consumers_agree" "amtool-vs-match"
+          s!"labels={lsTok}: amtool config routes test prints [{got}], Route.Match selects [{want}] (one receiver per matched route, in order)"])
+        ++ [.tag "amtool:binary"])
   | ["fact", which], [v] =>
     if v = "ok" then (σ, [.tag "fact:call-sites-pinned"])
     else (σ, [.propfail "three_consumers_agree" s!"callsite-{which}" s!"the {which} consumer no longer calls Match ∘ NewRoute as pinned"])
